@@ -344,6 +344,14 @@ static void c02_body(const struct c02cfg *c, int sched_bound)
   vk_cfg.sched_on = 1;
   if (r < 0) vk_finish(OUT_INFRA, "start failed in the stream harness: %d", r);
   CH = &vk_children[0];
+  /* the nonblocking option is about the parent's ends: a child whose own end of a pipe is nonblocking loses what it writes into a full pipe
+   * (its write fails with EAGAIN instead of waiting for the parent) and sees EAGAIN on an empty stdin instead of waiting for data */
+  for (int i = 0; i < CH->hello.nfd; i++) {
+    const struct vc_fdinfo *f = &CH->hello.fds[i];
+    if (f->fd <= 2 && S_ISFIFO(f->mode) && (f->flags & O_NONBLOCK))
+      vk_violation("C02", "child-end-blocking", key, "the child's end of the %s pipe is in nonblocking mode (nonblocking option %s)", f->fd == 0 ? "stdin" : f->fd == 1 ? "stdout" : "stderr",
+                   nonblocking ? "set: it concerns the parent's ends only" : "not set");
+  }
   /* small pipes, so that "full" is reachable with small payloads */
   for (int i = 0; i < 3; i++) {
     pfd[i] = ident_parent_fd_for_stream(CH, i);
